@@ -254,6 +254,7 @@ type PathCtx struct {
 	oneShots     int
 	divs         []divEnt
 	Overflows    int
+	rlpBlobs     []iface
 }
 
 type divEnt struct {
